@@ -47,3 +47,6 @@ def uninstall():
 
 def extractor(nng, arch, res):
     return list(_CAPTURED)
+
+
+extractor.on_failure = True     # the records matter most when the compilation dies right after the allocation
